@@ -1361,7 +1361,7 @@ func (t *mtr) assignedAgain(obj types.Object) bool {
 	return t.multi[obj]
 }
 
-// deferredUnlock: s is `defer g.M.Unlock()`
+// deferredUnlock: s is `defer g.M.Unlock()` (or the same unlock wrapped in a parameterless function)
 func (t *mtr) deferredUnlock(s ast.Stmt) (field string, ok bool) {
 	ds, isD := s.(*ast.DeferStmt)
 	if !isD {
@@ -1370,6 +1370,15 @@ func (t *mtr) deferredUnlock(s ast.Stmt) (field string, ok bool) {
 	m, f, ok := t.lockCall(&ast.ExprStmt{X: ds.Call})
 	if ok && m == "Unlock" {
 		return f, true
+	}
+	// defer func() { g.M.Unlock() }()  /  defer release()  with  func release() { g.M.Unlock() }: a deferred call, without
+	// arguments, of a function literal or same-package function without parameters whose whole body is that one unlock
+	if len(ds.Call.Args) == 0 {
+		if fd := t.funcValue(ds.Call.Fun); fd != nil && fd.Recv == nil && fd.Body != nil && fd.Type.Params.NumFields() == 0 && len(fd.Body.List) == 1 {
+			if m, f, ok := t.lockCall(fd.Body.List[0]); ok && m == "Unlock" {
+				return f, true
+			}
+		}
 	}
 	return "", false
 }
